@@ -1,18 +1,29 @@
 //! Random patterns (dewey, glob, plain, brace trees with dewey/glob tails) and names
 //! derived from them (one expansion path, then mutated) so that matches are frequent.
 use super::versions;
-use crate::util::Rng;
+use crate::util::{rare_char, sprinkle, threshold, Rng, UNI_DIGITS};
 
 const BASES: [&str; 14] = ["a", "ab", "foo", "py39-x", "a-b", "a-b-c", "é", "f-é", "lib2", "p5-X", "x", "", "-", "b1"];
 const OPS: [&str; 4] = [">", ">=", "<", "<="];
 
 pub fn base(rng: &mut Rng) -> String {
-    if rng.chance(3, 4) {
+    // scale: a base longer than a pattern buffer or a 16-bit offset could hold
+    if rng.chance(1, 400) {
+        // (glob patterns are parsed and matched by recursion in the specification: up to 5000 here,
+        // the 64 KiB range only for comparison patterns, see dewey())
+        let n = threshold(rng, 5000);
+        let mut b: String = "longbase-".to_string();
+        b.push_str(&"x".repeat(n.saturating_sub(9)));
+        return b;
+    }
+    let b: String = if rng.chance(3, 4) {
         rng.pick(&BASES).to_string()
     } else {
         let n = rng.range(1, 6);
         (0..n).map(|_| *rng.pick(&['a', 'b', 'c', '-', '1', 'x', 'é', '+', '.'])).collect()
-    }
+    };
+    // rare values: e.g. a character whose code point ends in the byte of '{' or '<'
+    sprinkle(rng, &b, 12)
 }
 
 fn near_base(rng: &mut Rng, b: &str) -> String {
@@ -42,10 +53,13 @@ fn simple_version(rng: &mut Rng) -> String {
 
 /// dewey pattern text and a list of interesting names for it
 pub fn dewey(rng: &mut Rng) -> (String, Vec<String>) {
-    let b = base(rng);
+    let b = if rng.chance(1, 1500) { format!("verylongbase-{}", "y".repeat(*rng.pick(&[65522usize, 65523, 65524, 70000]))) } else { base(rng) };
     let v1 = simple_version(rng);
     let v2 = simple_version(rng);
-    let p = match rng.below(10) {
+    let shape = if rng.chance(1, 200) { 10 } else { rng.below(10) };
+    let p = match shape {
+        // scale: more operators than a narrow counter holds (always a rejected pattern)
+        10 => { let k = *rng.pick(&[3usize, 4, 255, 256, 257, 258, 513, 514]); format!("{}{}", b, (0..k).map(|_| format!("{}{}", rng.pick(&OPS), rng.pick(&["1", "2", "3.0"]))).collect::<String>()) }
         0..=3 => format!("{}{}{}", b, rng.pick(&OPS), v1),
         4..=6 => format!("{}{}{}{}{}", b, rng.pick(&[">", ">="]), v1, rng.pick(&["<", "<="]), v2),
         7 => format!("{}{}{}{}{}", b, rng.pick(&OPS), v1, rng.pick(&OPS), v2),
@@ -89,8 +103,9 @@ pub fn glob(rng: &mut Rng) -> (String, Vec<String>) {
         match it {
             "*" => inst.push_str(*rng.pick(&["", "x", "1.0", "-2", "é"])),
             "?" => inst.push(*rng.pick(&['x', '1', '-', 'é'])),
-            "[0-9]" => inst.push(*rng.pick(&['0', '5', '9'])),
-            "[0-9]*" => inst.push_str(*rng.pick(&["0", "5.1", "9nb1"])),
+            // a numeric character that is not an ASCII digit is not in [0-9]
+            "[0-9]" => inst.push(if rng.chance(1, 12) { *rng.pick(&UNI_DIGITS) } else { *rng.pick(&['0', '5', '9']) }),
+            "[0-9]*" => if rng.chance(1, 12) { inst.push(*rng.pick(&UNI_DIGITS)); inst.push_str(".0"); } else { inst.push_str(*rng.pick(&["0", "5.1", "9nb1"])) },
             "[a-z]" => inst.push(*rng.pick(&['a', 'm', 'z'])),
             "[!0-9]" => inst.push(*rng.pick(&['a', '-', 'é'])),
             "[ab]" => inst.push(*rng.pick(&['a', 'b'])),
@@ -114,7 +129,7 @@ pub fn mutate_name(rng: &mut Rng, n: &str) -> String {
         0 if !cs.is_empty() => { cs[0] = *rng.pick(&['a', 'b', 'x', '1', '-']); }
         1 if cs.len() > 1 => { cs[1] = *rng.pick(&['a', 'b', 'x', '1', '-']); }
         2 if !cs.is_empty() => { let i = rng.below(cs.len()); cs.remove(i); }
-        3 => { let i = rng.below(cs.len() + 1); cs.insert(i, *rng.pick(&['a', '1', '-', 'x', 'é', '.'])); }
+        3 => { let i = rng.below(cs.len() + 1); let c = if rng.chance(1, 8) { rare_char(rng) } else { *rng.pick(&['a', '1', '-', 'x', 'é', '.']) }; cs.insert(i, c); }
         4 if !cs.is_empty() => { let i = rng.below(cs.len()); cs[i] = *rng.pick(&['a', '1', '-', 'x', '9', 'B']); }
         5 => { cs.truncate(rng.below(3)); }
         6 => { cs.push(*rng.pick(&['a', '1', '-'])); }
@@ -156,7 +171,37 @@ fn tree(rng: &mut Rng, depth: usize, budget: &mut usize) -> (String, String) {
     (p, e)
 }
 
+/// scale: nesting deeper than a narrow counter, more expansions than a bounded table
+fn brace_scale(rng: &mut Rng) -> (String, Vec<String>) {
+    match rng.below(4) {
+        0 => {
+            let d = *rng.pick(&[255usize, 256, 257, 300]);
+            (format!("{}foo{}-1.0", "{".repeat(d), "}".repeat(d)), vec!["foo-1.0".into(), "foo-1.1".into(), "foo".into()])
+        }
+        1 => {
+            // not properly nested, by a number of braces that only a wide counter sees
+            let (o, c) = *rng.pick(&[(300usize, 255usize), (256, 255), (255, 256), (257, 1), (512, 256)]);
+            (format!("{}foo{}-1.0", "{".repeat(o), "}".repeat(c)), vec!["foo-1.0".into()])
+        }
+        2 => {
+            // 2^k expansions; the matching one is among the last
+            let k = *rng.pick(&[5usize, 8, 12, 13]);
+            let name: String = (0..k).map(|i| if i + 1 == k || rng.chance(1, 2) { 'b' } else { 'a' }).collect();
+            (format!("{}-[0-9]*", "{a,b}".repeat(k)), vec![format!("{}-1.0", name), format!("{}c-1.0", &name[1..]), format!("{}-x", name)])
+        }
+        _ => {
+            // one group with many alternatives
+            let k = *rng.pick(&[17usize, 33, 65, 257, 300]);
+            let alts: Vec<String> = (0..k).map(|i| format!("p{}", i)).collect();
+            (format!("{{{}}}-[0-9]*", alts.join(",")), vec![format!("p{}-1", k - 1), format!("p{}-2.0", k / 2), format!("p{}-1", k), "p0-1".into()])
+        }
+    }
+}
+
 pub fn brace(rng: &mut Rng) -> (String, Vec<String>) {
+    if rng.chance(1, 250) {
+        return brace_scale(rng);
+    }
     let mut budget = 6;
     let depth = rng.range(1, 3);
     let (mut p, mut e) = tree(rng, depth, &mut budget);
@@ -204,7 +249,8 @@ pub fn any(rng: &mut Rng) -> (String, Vec<String>) {
 /// related patterns (same / near-miss bases, different bounds) and names for them, with
 /// repeated names, for the matrix (history independence) check
 pub fn matrix(rng: &mut Rng) -> (Vec<String>, Vec<String>) {
-    let b = base(rng);
+    // (every pattern is matched against every name: very long bases are left to the other drivers)
+    let b = loop { let b = base(rng); if b.len() <= 1100 { break b; } };
     let nb = near_base(rng, &b);
     let vs: Vec<String> = (0..4).map(|_| simple_version(rng)).collect();
     let mut ps = vec![];
